@@ -2,6 +2,7 @@ package checks
 
 import (
 	"fmt"
+	"github.com/olareg/olareg/types"
 	"net/url"
 	"os"
 	"path/filepath"
@@ -284,9 +285,12 @@ func c06Specs(tier string) []*h.SeqSpec {
 	var specs []*h.SeqSpec
 	// ---- part A: one repository, exactness and convergence
 	const repo = "r"
-	for _, store := range []string{"mem", "dir"} {
-		for _, pol := range c06Policies(tier) {
+	for _, store := range []string{"mem", "dir", "memdir"} {
+		for pi, pol := range c06Policies(tier) {
 			store, pol := store, pol
+			if store == "memdir" && tier != "thorough" && pi > 0 {
+				continue // the memory store over a directory that already holds content: one policy in the quick tier
+			}
 			var ops []h.Op
 			macro := func(n, tag string) {
 				name := "push " + n + " completely"
@@ -360,9 +364,40 @@ func c06Specs(tier string) []*h.SeqSpec {
 			}
 			specs = append(specs, &h.SeqSpec{
 				Name: fmt.Sprintf("c06-%s-%s-F%s", store, pol.Name(), pol.Freq),
-				Conf: &h.Conf{Name: store, Store: store, Mod: func(c *config.Config) { pol.Apply(c) }},
+				Conf: &h.Conf{Name: store, Store: store, Mod: func(c *config.Config) { pol.Apply(c) }, Prep: func(dir string) {
+					if store != "memdir" {
+						return
+					}
+					// the directory already holds I1 (tagged t1), I2 (untagged) and their blobs: the memory store serves them
+					// from disk until they are pushed again, and has to hide them once they are collected
+					l := NewLayout()
+					for _, n := range []string{"c", "l1", "l2", "I1", "I2"} {
+						l.AddItem(f.Items[n])
+					}
+					l.Entry(f.Items["I1"], tagAnn("t1"))
+					l.Entry(f.Items["I2"], nil)
+					l.Ann = map[string]string{types.AnnotReferrerConvert: "true"}
+					l.Write(filepath.Join(dir, repo))
+				}},
 				Init: func(w *h.World) {
-					w.M = NewMRegFix(f)
+					m := NewMRegFix(f)
+					w.M = m
+					if store == "memdir" {
+						// what is on disk is as old as the world
+						now := vrt.Now()
+						_ = filepath.Walk(w.Dir, func(p string, _ os.FileInfo, err error) error {
+							if err == nil {
+								_ = os.Chtimes(p, now, now)
+							}
+							return nil
+						})
+						r := m.Repo(repo)
+						for _, b := range []string{"c", "l1", "l2"} {
+							r.PushBlob(b)
+						}
+						r.PushManifest(f.Items["I1"], "t1")
+						r.PushManifest(f.Items["I2"], "")
+					}
 					vrt.Advance(67*time.Second, false)
 				},
 				Ops:      ops,
